@@ -74,6 +74,7 @@ def make_interp(repo, reads_log=None):
 TECHNIQUE += '; builder dispatch (cf_build_solver) by partial evaluation: the class constructed for an assumption set is the one its starting vectors were paired with'
 
 EXPLANATION += ' R04.9 cf_build_solver constructs, for every (layer kind, static, incompressible), the equation class R04.1 pairs the starting vectors of that assumption set with.'
+EXPLANATION += ' R04.1 second pass: where a starting function is recorded as reading another solution\'s slot (known finding), the reads are redirected to the own slot and the rest of the function must then be flow-invariant, so a second defect in the same function is still reported.'
 
 def run(chk):
     repo = Repo(chk.repo)
